@@ -3,6 +3,8 @@ package main
 import (
 	"fmt"
 
+	"gitlab.com/gomidi/midi/v2/internal/verifh/engine"
+
 	"gitlab.com/gomidi/midi/v2/smf"
 )
 
@@ -119,6 +121,73 @@ func nilMasks() {
 			report("accessor:"+c.name+":nil-destination", c.name, nil, c.m, fmt.Sprintf("verdict %v with a nil destination, %v with one", a, b))
 		}
 	}
+}
+
+// ownership: results belong to the caller (no shared tables, no caches), and
+// slices handed in stay the caller's (nothing is appended into their capacity).
+func ownership() {
+	type mk struct {
+		name string
+		f    func() []byte
+	}
+	var mks []mk
+	for num := 0; num <= 7; num++ {
+		for _, flat := range []bool{false, true} {
+			for _, major := range []bool{true, false} {
+				num, flat, major := num, flat, major
+				mks = append(mks, mk{fmt.Sprintf("MetaKey(num=%d flat=%v major=%v)", num, flat, major), func() []byte {
+					return smf.MetaKey(uint8(circle(num, flat, major)), major, uint8(num), flat)
+				}})
+			}
+		}
+	}
+	for _, nk := range named {
+		nk := nk
+		mks = append(mks, mk{"named-key(" + nk.name + ")", func() []byte { return nk.mk() }})
+	}
+	mks = append(mks,
+		mk{"MetaTempo(120)", func() []byte { return smf.MetaTempo(120) }},
+		mk{"MetaMeter(4,4)", func() []byte { return smf.MetaMeter(4, 4) }},
+		mk{"MetaTimeSig(4,4,24,8)", func() []byte { return smf.MetaTimeSig(4, 4, 24, 8) }},
+		mk{"MetaChannel(0)", func() []byte { return smf.MetaChannel(0) }},
+		mk{"MetaPort(0)", func() []byte { return smf.MetaPort(0) }},
+		mk{"MetaSequenceNo(0)", func() []byte { return smf.MetaSequenceNo(0) }},
+		mk{"MetaSMPTE(0,0,0,0,0)", func() []byte { return smf.MetaSMPTE(0, 0, 0, 0, 0) }},
+		mk{"MetaText(\"\")", func() []byte { return smf.MetaText("") }},
+		mk{"MetaText(\"a\")", func() []byte { return smf.MetaText("a") }},
+		mk{"MetaLyric(\"la\")", func() []byte { return smf.MetaLyric("la") }},
+		mk{"MetaSequencerData(1 byte)", func() []byte { return smf.MetaSequencerData([]byte{7}) }},
+		mk{"EOT", func() []byte { return append([]byte(nil), smf.EOT...) }},
+	)
+	for _, m := range mks {
+		ctx.Eval()
+		if d := engine.Owned(m.f); d != "" {
+			report("constructor:result-not-owned:"+fn(m.name), m.name, nil, m.f(), d)
+		}
+		ctx.NontrivialN(1)
+	}
+	for _, n := range []int{1, 5, 127, 128, 300} {
+		ctx.Eval()
+		arg, touched := engine.Spare(content(n, 2), 8)
+		m := smf.MetaSequencerData(arg)
+		if t := touched(); t != "" {
+			report("constructor:writes-into-argument:MetaSequencerData", "MetaSequencerData", n, m, t)
+		}
+		var back []byte
+		m.GetMetaSeqData(&back)
+		for i := range back {
+			back[i] ^= 0xFF // what the accessor hands out must not be the message's own bytes... or if it is, the message is the caller's anyway
+		}
+	}
+}
+
+func fn(name string) string {
+	for i := 0; i < len(name); i++ {
+		if name[i] == '(' {
+			return name[:i]
+		}
+	}
+	return name
 }
 
 func catch(f func()) (p string) {
